@@ -382,6 +382,8 @@ def header_writer_rule(prog, res, rule='header-write', int_scale_ok=False):
                     cn = d.get('copy_n')
                     if d.get('src_from') is None or cn is None or not (set(cn.keys()) <= {()} and cn.get((), 0) <= fld['bytes']):
                         bad = 'label cell is not filled from the label string with a bounded copy'
+                    elif cn.get((), 0) < fld['bytes']:
+                        bad = 'only %d of the %d characters of the label cell are copied from the label: the rest of a stored label is not written' % (cn.get((), 0), fld['bytes'])
                     else:
                         # string::copy writes min(n, size) characters: the cell must be cleared for every label,
                         # i.e. the zero-initialised array is declared inside the loop that writes it
@@ -2181,6 +2183,18 @@ def label_binding_rule(prog, res, rule='label-binding'):
             m = re.match(r'^arg0\._parameters\.group\("(\w+)"\)\.parameter\("LABELS"\)\.valuesAsString\(\)$', r)
             if m and l.startswith('local:'):
                 src[l[6:]] = m.group(1)
+                # a guard around the fetch must let every positive count through
+                for a_ in f.ancestors(n['id']):
+                    an = f.nodes[a_]
+                    if an['k'] != 'IfStmt' or n['id'] not in ([an.get('then')] + list(f.descendants(an['then']) if an.get('then') is not None else [])):
+                        continue
+                    mc = re.match(r'^\((arg0\._header\.[\w\.\(\) /]+?) (>|>=|!=|==) (\d+)\)$', R.render(an['cond']))
+                    if not mc:
+                        continue
+                    op_, k_ = mc.group(2), int(mc.group(3))
+                    lets_one = {'>': 1 > k_, '>=': 1 >= k_, '!=': 1 != k_, '==': False}[op_]
+                    if not lets_one:
+                        wrong.append('%s: %s:LABELS is fetched only when %s %s %d: a file with exactly one point/channel keeps generated names' % (f.loc(an['id']), m.group(1), mc.group(1), op_, k_))
     want = {'POINT', 'ANALOG'}
     have = {src.get(k) for k in found}
     if want <= have and not wrong:
